@@ -1996,11 +1996,18 @@ impl OffsetConflict {
             // to be invalid. Which is consistent with how they're treated as
             // `OffsetConflict::Reject`. Thus, like any other invalid offset,
             // we fallback to disambiguation (which is handled by the caller).
-            Fold { before, after }
-                if is_equal(given, before) || is_equal(given, after) =>
-            {
-                let kind = Unambiguous { offset: given };
-                AmbiguousTimestamp::new(dt, kind)
+            Fold { before, after } => {
+                // N.B. `is_equal` may be a tolerance (e.g., equality up to
+                // rounding to the nearest minute), so we must pin the
+                // datetime to the offset of the time zone that matched and
+                // not to the offset given.
+                match matching_offset(given, before, after, &mut is_equal) {
+                    Some(offset) => {
+                        let kind = Unambiguous { offset };
+                        AmbiguousTimestamp::new(dt, kind)
+                    }
+                    None => amb,
+                }
             }
             _ => amb,
         }
@@ -2058,23 +2065,48 @@ impl OffsetConflict {
                     tzname = tz.diagnostic_name(),
                 ))
             }
-            Fold { before, after }
-                if !is_equal(given, before) && !is_equal(given, after) =>
-            {
-                Err(err!(
-                    "datetime {dt} could not resolve to timestamp \
-                     since 'reject' conflict resolution was chosen, and \
-                     because datetime has offset {given}, but the time \
-                     zone {tzname} for the given datetime falls in a fold \
-                     between offsets {before} and {after}, neither of which \
-                     match the offset",
-                    tzname = tz.diagnostic_name(),
-                ))
-            }
-            Fold { .. } => {
-                let kind = Unambiguous { offset: given };
+            Fold { before, after } => {
+                // N.B. `is_equal` may be a tolerance (e.g., equality up to
+                // rounding to the nearest minute), so we must pin the
+                // datetime to the offset of the time zone that matched and
+                // not to the offset given.
+                let Some(offset) =
+                    matching_offset(given, before, after, &mut is_equal)
+                else {
+                    return Err(err!(
+                        "datetime {dt} could not resolve to timestamp \
+                         since 'reject' conflict resolution was chosen, and \
+                         because datetime has offset {given}, but the time \
+                         zone {tzname} for the given datetime falls in a fold \
+                         between offsets {before} and {after}, neither of which \
+                         match the offset",
+                        tzname = tz.diagnostic_name(),
+                    ));
+                };
+                let kind = Unambiguous { offset };
                 Ok(AmbiguousTimestamp::new(dt, kind).into_ambiguous_zoned(tz))
             }
         }
+    }
+}
+
+/// Returns whichever of the two offsets of a fold is considered equal to the
+/// offset given, preferring an exact match over one according to `is_equal`.
+fn matching_offset(
+    given: Offset,
+    before: Offset,
+    after: Offset,
+    mut is_equal: impl FnMut(Offset, Offset) -> bool,
+) -> Option<Offset> {
+    if given == before {
+        Some(before)
+    } else if given == after {
+        Some(after)
+    } else if is_equal(given, before) {
+        Some(before)
+    } else if is_equal(given, after) {
+        Some(after)
+    } else {
+        None
     }
 }
